@@ -265,6 +265,77 @@ func genCKKSRefresh(t *rapid.T) CKKSCase {
 	}
 	c.OutMode = rapid.IntRange(0, 2).Draw(t, "outMode")
 	c.PrecExtra = []int{64, 64, 32, 0}[rapid.IntRange(0, 3).Draw(t, "precExtra")]
+	if c.Mode == "transform" && rapid.IntRange(0, 2).Draw(t, "otherParams") == 0 {
+		// other output parameters: ring degree N/2, N or 2N, own moduli chain and default scale
+		o := &CKKSOut{LogN: c.Params.LogN, LogScale: c.Params.LogScale}
+		switch rapid.IntRange(0, 2).Draw(t, "outN") {
+		case 0:
+			maxOut := c.Params.LogN - 2
+			if c.Params.CI {
+				maxOut++
+			}
+			if c.Params.LogN > 4 && c.LogSlots <= maxOut {
+				o.LogN--
+			}
+		case 1:
+			o.LogN++
+		}
+		if rapid.Bool().Draw(t, "outScale") {
+			o.LogScale = rapid.IntRange(20, 45).Draw(t, "logScaleOut")
+		}
+		need := float64(c.Lambda+c.Params.LogScale+1) + math.Ceil(math.Log2(float64(c.Parties))) + float64(c.LogSlots) + 5 + lambdaHeadroom(c.Lambda)
+		if d := o.LogScale - c.Params.LogScale; d > 0 {
+			need += float64(d)
+		}
+		var sizes []int
+		acc := 0.0
+		for i := 0; acc < need+1; i++ {
+			sz := rapid.IntRange(45, 60).Draw(t, fmt.Sprintf("qosz%d", i))
+			sizes = append(sizes, sz)
+			acc += float64(sz) - 1
+		}
+		for i, extra := 0, rapid.IntRange(0, 2).Draw(t, "extraLevelsOut"); i < extra; i++ {
+			sizes = append(sizes, rapid.IntRange(30, 60).Draw(t, fmt.Sprintf("qoszx%d", i)))
+		}
+		m := uint64(2) << o.LogN
+		if c.Params.CI {
+			m <<= 1
+		}
+		used := map[uint64]bool{}
+		o.Q = h.GenPrimes(t, sizes, m, used, "qo")
+		if rapid.Bool().Draw(t, "nPout") {
+			o.P = h.GenPrimes(t, []int{rapid.IntRange(45, 60).Draw(t, "posz")}, m, used, "po")
+		}
+		c.Out = o
+		c.WithParams = rapid.Bool().Draw(t, "withParams")
+		mo := c.minOutLevel(true)
+		if mo < 0 {
+			t.Fatalf("generator: output chain too short")
+		}
+		c.LevelO = len(o.Q) - 1
+		if rapid.Bool().Draw(t, "outBelowMax") {
+			c.LevelO = rapid.IntRange(mo, len(o.Q)-1).Draw(t, "levelOutO")
+		}
+	}
+	if rapid.Bool().Draw(t, "second") {
+		s := &CKKSSecond{Seed: rapid.Uint64().Draw(t, "seed2"), ScaleMul: 1}
+		if rapid.Bool().Draw(t, "scale2") {
+			s.ScaleMul = 1 + float64(rapid.IntRange(1, 1023).Draw(t, "scaleMul2"))/1024
+		}
+		sc := scaleIntOf(c.Params.LogScale, s.ScaleMul)
+		oq, ols := c.outSpec().Q, c.outSpec().LogScale
+		minE := minLevelFor(c.Params.Q, needBitsE2S(c.Lambda, sc, c.Parties)+lambdaHeadroom(c.Lambda)-1e-9)
+		minO := minOutLevelFor(c.Lambda, sc, c.Parties, c.LogSlots, oq, ols, true)
+		if minE >= 0 && minO >= 0 {
+			s.LevelE = rapid.IntRange(minE, len(c.Params.Q)-1).Draw(t, "levelE2")
+			s.LevelIn = rapid.IntRange(s.LevelE, len(c.Params.Q)-1).Draw(t, "levelIn2")
+			s.LevelO = rapid.IntRange(minO, len(oq)-1).Draw(t, "levelO2")
+			s.Pattern = []string{"uniform", "zero", "one", "onehot"}[rapid.IntRange(0, 3).Draw(t, "pattern2")]
+			s.Merges = genMerges(t, c.Parties)
+			s.OutMode = rapid.IntRange(0, 2).Draw(t, "outMode2")
+			c.Second = s
+		}
+	}
 	return c
 }
 
@@ -613,6 +684,8 @@ func runCKKSSharesBody(c CKKSCase, rec *h.Rec) error {
 		return centered(ringE, mq)
 	}
 	var pools, pools2 smudgePools // decryption shares, re-encryption shares
+	pools.off, pools2.off = !statsCase(c.Seed), !statsCase(c.Seed)
+	var masks uniPools
 	cls := func(i int) int {
 		if i == 0 || !c.Shallow {
 			return 0
@@ -635,6 +708,11 @@ func runCKKSSharesBody(c CKKSCase, rec *h.Rec) error {
 			return h.Failf("C16:mpckks:EncToShare:GenShare:noise-above-bound", "decryption-share noise 2^%.1f exceeds the hard bound %g (sigma=%g)", log2Big(infNorm(r)), x.bParty, c.Sigma)
 		}
 		pools.add(k, r)
+		bf := new(big.Float).SetMantExp(big.NewFloat(1), int(x.logBound))
+		for _, m := range sec.Value[:x.dslots] {
+			u, _ := new(big.Float).Quo(new(big.Float).SetInt(m), bf).Float64()
+			masks.add(k, u+0.5)
+		}
 		return nil
 	}
 
@@ -724,6 +802,10 @@ func runCKKSSharesBody(c CKKSCase, rec *h.Rec) error {
 		}
 	}
 	if err := pools.check(c.Sigma, 1, "C16:mpckks:EncToShare:GenShare:smudging-too-small", rec); err != nil {
+		return err
+	}
+	// the masks are documented as logBound-bit values: uniform in [-2^(logBound-1), 2^(logBound-1))
+	if err := masks.check(0.5, 1.0/12, "C16:mpckks:EncToShare:GenShare:mask-not-uniform"); err != nil {
 		return err
 	}
 
@@ -848,6 +930,6 @@ func (x *ckksCtx) checkOutputP(params ckks.Parameters, gap int, key string, out 
 	return nil
 }
 
-var propCKKSShares = h.NewProp("TestPropCKKSShares", h.Budget{Quick: 600, Thorough: 8000}, genCKKSShares, runCKKSShares)
+var propCKKSShares = h.NewProp("TestPropCKKSShares", h.Budget{Quick: 400, Thorough: 2000}, genCKKSShares, runCKKSShares)
 
 func TestPropCKKSShares(t *testing.T) { propCKKSShares.Check(t) }
